@@ -17,18 +17,18 @@ import (
 // ranging over a package-level table of (mark, name) pairs), the plain sniffer
 // and its ASCII / Latin helpers.
 type charsetModel struct {
-	walk     *ssa.Function            // the function holding the sniffer map
-	sniffers map[string]*ssa.Function // key constant -> function
-	snifKeys []string
-	mapAlloc ssa.Value
+	walk      *ssa.Function            // the function holding the sniffer map
+	sniffers  map[string]*ssa.Function // key constant -> function
+	snifKeys  []string
+	mapAlloc  ssa.Value
 	mapGlobal *ssa.Global // set when the map lives in a package variable
-	bomFn    *ssa.Function
-	bomTable *ssa.Global
-	boms     []bomEntry
-	bomsOK   bool
-	plain    *ssa.Function
-	html     *ssa.Function
-	xml      *ssa.Function
+	bomFn     *ssa.Function
+	bomTable  *ssa.Global
+	boms      []bomEntry
+	bomsOK    bool
+	plain     *ssa.Function
+	html      *ssa.Function
+	xml       *ssa.Function
 }
 
 // isSnifferMap: v denotes the sniffer map (the MakeMap itself or a load of the
